@@ -43,7 +43,7 @@ def _table(rng, n, ncol, csv_only=False, json_only=None, ts_ok=False):
     """Plain-Python table: list of (name, kind, values) over int / digit-str / word-str / float / iso-date-str."""
     cols = []
     for name in rng.sample(NAMES, ncol):
-        kind = rng.choice(["int", "float", "word", "digits", "iso"] + (["intz"] if csv_only else []) + (["nested", "nested"] if json_only else []) + (["mixednum"] if json_only == "lod" else []) + (["ts", "ts"] if ts_ok else []) + (["tsns"] if ts_ok and csv_only else []) + (["floatnan"] if ts_ok else []))
+        kind = rng.choice(["int", "float", "word", "digits", "iso"] + (["intz"] if csv_only else []) + (["nested", "nested"] if json_only else []) + (["mixednum"] if json_only == "lod" else []) + (["ts", "ts"] if ts_ok else []) + (["tsns"] if ts_ok and csv_only else []) + (["floatnan"] if ts_ok or json_only == "df" else []))
         if kind == "floatnan":
             # floats with NaN stored as a VALUE (not as the format's null): "NAN" in CSV text, NaN in a Parquet file written from NumPy arrays
             cols.append((name, kind, [None if rng.random() < 0.35 else rng.choice([0.5, 1.25, -3.5, 2.0]) for _ in range(n)]))
@@ -221,7 +221,8 @@ def _write(case, path, fmt, enc="utf-8", sep=",", header=True):
             di.ListOfDicts(rows).write_json(path)
         else:
             with open(path, "w", encoding=enc) as f:
-                json.dump(rows, f, ensure_ascii=False)
+                # (a float column's missing values as the NaN literal Python's json writes, not as null)
+                json.dump([{k: (float("nan") if k in fnan and v is None else v) for k, v in r.items()} for r in rows], f, ensure_ascii=False)
     elif fmt == "parquet":
         if lib:
             di.DataFrame(**{c[0]: list(c[2]) for c in cols}).write_parquet(path)
